@@ -436,9 +436,13 @@ func (c *Ctx) rulesC02x(a *coreAnchors) {
 	c.rule("C02.reres", "on the auto path emitEvents re-resolves the target from the accepted called states (RelationsResolver.TargetStates) and recomputes Exits/Enters (setupExitEnter) unconditionally (guards: IsAuto() and !IsCheck only), before the state writer")
 	rr := c.namedType(pm, "DefaultRelationsResolver")
 	if rr != nil {
-		for _, name := range []string{"parseAdd", "parseRequire", "stateBlockedBy", "sortRequire"} {
-			f := c.fn(pm + ":DefaultRelationsResolver." + name)
+		for _, name := range []string{"parseAdd", "parseRequire", "stateBlockedBy", "sortRequire", "SortStates"} {
+			f := c.fnOpt(pm + ":DefaultRelationsResolver." + name)
 			if f == nil {
+				// the sort pass may live in SortStates itself
+				if name != "sortRequire" {
+					c.undecided("C02.pure: DefaultRelationsResolver." + name + " not found")
+				}
 				continue
 			}
 			bad := ""
